@@ -1,14 +1,16 @@
+\* L1 theorems on every (tables, call) pair: two classes, arities 1 and 2, both dispatcher objects, copies included
 SPECIFICATION Spec
 CONSTANTS
-  Kinds <- KMapDyn
+  Kinds <- KMapFast
   Arities = {1, 2}
-  NXs = {0, 1, 2}
+  NXs = {1}
   K = 2
   MaxHist = 100
-  MaxCells = 4
-  OpClasses <- OpsTable
+  MaxCells = 2
+  OpClasses <- OpsTableClone
   EmitMode <- ModeNone
+  Plans <- NoPlans
 CONSTRAINT Bound
 VIEW absvars
 INVARIANTS TypeOK OutcomeOK DispatchExact
-PROPERTIES LookupsPure OneCell
+PROPERTIES LookupsPure OneCell CopiesAreValues
